@@ -36,6 +36,17 @@ package ipv6
 //@   requires epOK(e) && r != nil && vvOK(vv)
 //@   at_call CheckLocalAddress requires len(addr) == 16 && forall(k, 0, 16, byteat(addr, k) == old(vv.views[0])[8 + k]) && protocol == ProtocolNumber
 //@   at_call WritePacket requires implies(old(vv.views[0])[0] == uint8(header.ICMPv6NeighborSolicit), ghost(lastLocalCheck) != 0 && protocol == header.ICMPv6ProtocolNumber)
+// ... and that answer is one neighbour advertisement (type 136, solicited + override), for
+// exactly the address asked about, sent from that address, with a target link-layer address
+// option (type 2, length 1) holding the route's local link address, and no payload.
+//@   at_call WritePacket requires implies(old(vv.views[0][0]) == uint8(header.ICMPv6NeighborSolicit), len(hdr.buf) - hdr.usedIdx == 32 && payload.size == 0
+//@             && hdr.buf[hdr.usedIdx] == uint8(header.ICMPv6NeighborAdvert) && hdr.buf[hdr.usedIdx + 4] == 0x60 && hdr.buf[hdr.usedIdx + 24] == 2 && hdr.buf[hdr.usedIdx + 25] == 1
+//@             && len(recv.LocalAddress) == 16 && forall(k, 0, 16, hdr.buf[hdr.usedIdx + 8 + k] == old(vv.views[0][8 + k]) && byteat(recv.LocalAddress, k) == old(vv.views[0][8 + k]))
+//@             && forall(k, 0, 6, implies(k < len(caller(r).LocalLinkAddress), hdr.buf[hdr.usedIdx + 26 + k] == byteat(caller(r).LocalLinkAddress, k))))
+// A neighbour advertisement teaches the cache the advertised target address (bytes 8..24) at
+// the link address the frame came from.
+//@   at_call AddLinkAddress requires implies(old(vv.views[0][0]) == uint8(header.ICMPv6NeighborAdvert), linkAddr == r.RemoteLinkAddress
+//@             && ((len(addr) == 16 && forall(k, 0, 16, byteat(addr, k) == old(vv.views[0][8 + k]))) || addr == r.RemoteAddress))
 // C13 (echo): the only message sent in answer to an echo request is an ICMPv6 echo reply
 // whose 8-byte header carries type 129, the request's code, identifier and sequence number,
 // whose payload is the request's bytes after its 8-byte header (the very views, trimmed),
